@@ -1,43 +1,107 @@
-(* C18 — lemmas.  The development lives in GkProofs.v (builder, dedup, permutations, font maps,
-   bookkeeping, table keyed); this file adds the statements that combine them. *)
+(* C18 — lemmas.  The development lives in GkProofs.v (maps, builder specification), Runs.v (the literal
+   run-by-run loop refines the specification), GkProofs2.v (dedup, patch_offset_array, permutations, font
+   maps, bookkeeping, table keyed), Bits.v, Grouping.v; this file adds statements that combine them. *)
 From Coq Require Import ZArith List Bool Lia Permutation.
 From FV Require Import Lib.RustInt C18.Model.
-From FV Require Export C18.GkProofs C18.Bits.
+From FV Require Export C18.GkProofs C18.Runs C18.GkProofs2 C18.Bits.
 Import ListNotations.
 Open Scope Z_scope.
 
 (* the offset type changes only when the new total size does not fit the old one, the chosen type
    is the first available one that represents the total, and every emitted offset fits it *)
-Lemma poa_type_widens_only_when_needed views t offs data T avail maxgid T' os ds :
-  patch_offset_array views t offs data T avail maxgid = inr (T', os, ds) ->
+Lemma poa_type_widens_only_when_needed views t offs data T avail e_off maxgid T' os ds :
+  patch_offset_array views t offs data T avail e_off maxgid = inr (T', os, ds) -> 0 <= maxgid ->
+  (forall m, dedup views t = inr m -> Forall (fun gd => 0 <= fst gd) m) ->
   Forall (fun x => off_fits T' x = true) os /\
   exists total,
     (total <= ot_max T /\ T' = T) \/
     (ot_max T < total /\ total <= ot_max T' /\
      exists pre post, avail = pre ++ T' :: post /\ Forall (fun c => ot_max c < total) pre).
 Proof.
-  intros H. pose proof H as H0. apply poa_inv in H. destruct H as [m [total [D [C [_ [_ B]]]]]].
-  split; [eapply build_loop_fits; eauto|]. exists total. now apply choose_type_spec.
+  intros H Hm Hnn. pose proof H as H0. apply poa_inv in H; [|exact Hm].
+  destruct H as [m [total [D [C [_ [_ B]]]]]].
+  split; [eapply build_loop_fits; apply B; eauto|]. exists total. now apply choose_type_spec.
 Qed.
 
 (* glyf/loca: the tables put into the new font are the builder's data and its encoded offsets, and
    the loca format never changes *)
-Lemma patch_glyf_inv f views maxgid glyf' loca' :
-  patch_glyf f views maxgid = inr (glyf', loca') ->
-  exists glyf T offs os,
+Lemma patch_glyf_inv f views maxgid adds :
+  patch_glyf f views maxgid = inr adds ->
+  exists glyf T offs os ds,
     lookup f T_glyf = Some glyf /\ read_loca f = Some (T, offs) /\
-    patch_offset_array views T_glyf offs glyf T [T] maxgid = inr (T, os, glyf') /\
-    loca' = encode_offsets T os.
+    patch_offset_array views T_glyf offs glyf T [T] (6, 10) maxgid = inr (T, os, ds) /\
+    adds = [(T_glyf, ds); (T_loca, encode_offsets T os)].
 Proof.
   unfold patch_glyf. destruct (lookup f T_glyf) as [glyf|]; [|discriminate].
   destruct (read_loca f) as [[T offs]|]; [|discriminate].
-  destruct (patch_offset_array views T_glyf offs glyf T [T] maxgid) as [?|[[T' os] ds]] eqn:E; cbn [bind]; [discriminate|].
+  destruct (patch_offset_array views T_glyf offs glyf T [T] (6, 10) maxgid) as [?|[[T' os] ds]] eqn:E; cbn [bind]; [discriminate|].
   destruct (otype_eqb T' T) eqn:Q; cbn [negb]; [|discriminate].
   intros H; inversion H; subst.
   assert (T' = T).
-  { pose proof E as E0. apply poa_inv in E0. destruct E0 as [m [total [_ [C _]]]].
+  { unfold patch_offset_array in E. destruct (dedup views T_glyf) as [[? ?]|m]; [discriminate|].
+    destruct (retained_total _ offs _ 0); cbn [bind] in E; [discriminate|].
+    match type of E with context [choose_type T [T] ?tt] => destruct (choose_type T [T] tt) as [?|T0] eqn:C end;
+      cbn [bind] in E; [discriminate|].
+    destruct (last _ 0 >? maxgid); [discriminate|]. destruct (ascending offs); cbn [negb] in E; [|discriminate].
+    match type of E with context [build_runs ?a ?b ?c ?d offs glyf T0 ?e 0 [] []] =>
+      destruct (build_runs a b c d offs glyf T0 e 0 [] []) as [?|[o1 d1]] end; cbn [bind] in E; [discriminate|].
+    inversion E; subst.
     apply choose_type_spec in C. destruct C as [[_ ->]|[_ [_ [pre [post [Hp _]]]]]]; [reflexivity|].
     destruct pre as [|a pre]; cbn in Hp; [inversion Hp; reflexivity|].
     inversion Hp as [[Ha Hrest]]. destruct pre; discriminate. }
-  subst T'. exists glyf, T, offs, os. auto.
+  subst T'. exists glyf, T, offs, os, ds. auto.
+Qed.
+
+(* gvar: the rebuilt table is header (flags updated) + encoded offsets, then the unchanged shared tuples,
+   then the builder's data *)
+Lemma patch_gvar_inv f views maxgid adds :
+  patch_gvar f views maxgid = inr adds ->
+  exists g axis stc sto gc fl dao T offs T' os ds g',
+    lookup f T_gvar = Some g /\ read_gvar g = Some (axis, stc, sto, gc, fl, dao, T, offs) /\
+    patch_offset_array views T_gvar (map (fun o => dao + o) offs) g T [ot_short; ot_long] (2, 1) maxgid = inr (T', os, ds) /\
+    gvar_assemble g (axis, stc, sto, gc, fl, dao, T, offs) T' os ds = inr g' /\ adds = [(T_gvar, g')].
+Proof.
+  unfold patch_gvar. destruct (lookup f T_gvar) as [g|]; [|discriminate].
+  destruct (read_gvar g) as [[[[[[[[ax stc] sto] gc] fl] dao] T] offs]|]; [|discriminate].
+  destruct (patch_offset_array _ _ _ _ _ _ _ _) as [?|[[T' os] ds]] eqn:E; cbn [bind]; [discriminate|].
+  destruct (gvar_assemble _ _ _ _ _) as [?|g'] eqn:G; cbn [bind]; [discriminate|].
+  intros H; inversion H; subst. exists g, ax, stc, sto, gc, fl, dao, T, offs, T', os, ds, g'. auto.
+Qed.
+
+(* table keyed: a REPLACE entry is decoded without any dictionary — whatever the base font holds *)
+Lemma replace_ignores_base dec f fmt offs p F x t fl ml s : NoDup (map fst f) ->
+  apply_table_keyed dec f fmt offs p = inr F ->
+  tk_first (tk_entries p offs) x = Some (t, fl, ml, s) ->
+  Z.testbit fl 1 = false -> Z.testbit fl 0 = true ->
+  exists k out, dec k s None ml = inr out /\ lookup F x = Some out.
+Proof.
+  intros ND H E D R. pose proof (apply_table_keyed_exact dec f fmt offs p F ND H x) as K.
+  rewrite E, D, R in K. exact K.
+Qed.
+(* ... and a diff entry gets exactly the base table as dictionary *)
+Lemma diff_uses_base dec f fmt offs p F x t fl ml s : NoDup (map fst f) ->
+  apply_table_keyed dec f fmt offs p = inr F ->
+  tk_first (tk_entries p offs) x = Some (t, fl, ml, s) ->
+  Z.testbit fl 1 = false -> Z.testbit fl 0 = false ->
+  exists k out base, lookup f x = Some base /\ dec k s (Some base) ml = inr out /\ lookup F x = Some out.
+Proof.
+  intros ND H E D R. pose proof H as H0. unfold apply_table_keyed in H0.
+  pose proof (apply_table_keyed_exact dec f fmt offs p F ND H x) as K.
+  rewrite E, D, R in K. destruct K as [k [out [K1 K2]]].
+  destruct (lookup f x) as [base|] eqn:L; [exists k, out, base; auto|].
+  (* a diff against a missing base table is rejected: contradiction with success *)
+  exfalso. destruct (fmt =? T_iftk); cbn [negb] in H0; [|discriminate].
+  destruct (tk_fold dec f (tk_entries p offs) 0 [] []) as [?|[pr fb]] eqn:TF; cbn [bind] in H0; [discriminate|].
+  clear - TF E D R L.
+  assert (G : forall es k pr0 fb0 r, ~ In x pr0 -> tk_first es x = Some (t, fl, ml, s) ->
+              tk_fold dec f es k pr0 fb0 = inr r -> False).
+  { induction es as [|[e|[[[t0 fl0] ml0] s0]] es IH]; intros k pr0 fb0 r Hn Hf Hr; cbn in Hf; try discriminate.
+    cbn [tk_fold] in Hr. destruct (Z.eqb_spec x t0).
+    - inversion Hf; subst. apply memZ_false in Hn. rewrite Hn, D, R, L in Hr. discriminate.
+    - destruct (memZ t0 pr0); [eapply IH; eauto|].
+      assert (Hn' : ~ In x (t0 :: pr0)) by (intros [K|K]; [congruence | contradiction]).
+      destruct (Z.testbit fl0 1); [eapply IH; eauto|].
+      destruct (lookup f t0), (Z.testbit fl0 0); try discriminate;
+        match type of Hr with context [dec ?a ?b ?c ?d] => destruct (dec a b c d) end; try discriminate; eapply IH; eauto. }
+  eapply G; eauto.
 Qed.
